@@ -848,6 +848,9 @@ class Interp:
             return False
         if isinstance(a, AText) or isinstance(b, AText):
             text, other = (a, b) if isinstance(a, AText) else (b, a)
+            first_hook = self.externals.get("text_eq")
+            if first_hook is not None and getattr(text, "custom_eq", False):
+                return first_hook(self, [text, other], {})
             if isinstance(other, str):
                 if other == "":
                     return text.kind == AText.EMPTY
